@@ -113,6 +113,8 @@ pub fn clip_scene(max_dim: u32, max_tris: usize, color_only_ok: bool) -> BoxedSt
                 proj: None,
                 bg_depth: X(bg),
                 cfg: Cfg::plain(),
+                shader_mode: 0,
+                shared_verts: false,
             })
         })
         .boxed()
@@ -165,6 +167,8 @@ pub fn camera_scene(max_dim: u32, max_tris: usize, color_only_ok: bool) -> Boxed
             proj: Some(proj),
             bg_depth: X(bg),
             cfg: Cfg::plain(),
+                shader_mode: 0,
+                shared_verts: false,
         })
         .boxed()
 }
